@@ -96,6 +96,10 @@ def run(tier, seed):
     run.add_sample({"recipe": recipes[0], "event": traces[0][0]})
     run.add_sample({"recipe": recipes[-1], "event": traces[-1][0]})
     run.validate("typing", "Trace_Typing", traces, recipes, sigfn=sig, describe=describe)
+    # generic history fuzzer: live objects used again and again (wrap, query, rotate by 0, edit in place, assemble)
+    from .. import scenario
+    sc = scenario.run(rng, 20 if q else 200)
+    run.validate("scenario-typing", "Trace_Typing", sc["typing"], None, sigfn=lambda c, ev, tr: c + "|history", describe=describe)
     return run.finish("I->S: typing queries of generic classes over %d real + %d synthetic geometries and of all kit classes "
                       "on generated members (all/sampled rotations), point mutants, extra sites and neighbouring-class "
                       "instances; TLC recomputes cuts from (site, off, ovh); distinct_nontrivial = distinct accepted (class, record) pairs"
